@@ -146,6 +146,31 @@ def negTy (t : Ty) : Option Ty :=
     some (match t with | .anyInt _ => .anyInt true | t => t)
   else none
 
+/-- Built-in methods the generator uses (documented in the reference of `List[T]`
+    and `String`): parameter types and result for a receiver of type `recv`.
+    Method numbers: 0 `len` 1 `push` 2 `get` 3 `contains` 4 `is_empty`
+    5 `to_uppercase` 6 `starts_with` 7 `repeat` 8 `replace` 9 `split`
+    10 `strip_prefix` 11 `trim` 12 `concat` 13 `index` 14 `swap`. -/
+def methodSig (recv : Ty) (m : Nat) : Option (List Ty × Ty) :=
+  match recv, m with
+  | .list _, 0 => some ([], .int .u64)
+  | .list t, 1 => some ([t], .unit)
+  | .list t, 2 => some ([.int .u64], .opt t)
+  | .list t, 3 => some ([t], .bool)
+  | .list _, 4 => some ([], .bool)
+  | .list t, 12 => some ([.list t], .list t)
+  | .list t, 13 => some ([t], .opt (.int .u64))
+  | .list _, 14 => some ([.int .u64, .int .u64], .unit)
+  | .string, 3 => some ([.string], .bool)
+  | .string, 5 => some ([], .string)
+  | .string, 6 => some ([.string], .bool)
+  | .string, 7 => some ([.int .u64], .string)
+  | .string, 8 => some ([.string, .string], .string)
+  | .string, 9 => some ([.string], .list .string)
+  | .string, 10 => some ([.string], .opt .string)
+  | .string, 11 => some ([], .string)
+  | _, _ => none
+
 inductive RetKind | ret | accept | reject
   deriving DecidableEq, Repr, Inhabited
 
@@ -173,6 +198,8 @@ inductive Expr
   | for (x : Nat) (e : Expr) (b : Block)
   | block (b : Block)
   | call (f : Nat) (args : List Expr)
+  /-- `e.m(args)`: a method of a built-in type (`methodSig`) -/
+  | mcall (e : Expr) (m : Nat) (args : List Expr)
   /-- `x.p… = e` (root is a variable) or `C.p… = e` (root is a constant) -/
   | assign (rootIsConst : Bool) (x : Nat) (path : List Nat) (e : Expr)
   | cassign (op : BinOp) (rootIsConst : Bool) (x : Nat) (path : List Nat) (e : Expr)
@@ -434,6 +461,20 @@ def synth (env : Env) (ctx : Ctx) (g : Gamma) : Expr → R TD
       if args.length != sig.params.length then fail "arity" else
       let d ← checkArgs env ctx g args sig.params
       pure (sig.ret, d)
+  | .mcall e m args => do
+    let (t, d) ← synth env ctx g e
+    match methodSig t m with
+    | some (ps, r) =>
+      if args.length != ps.length then fail "arity" else
+      let d' ← checkArgs env ctx g args ps
+      pure (r, d || d')
+    | none =>
+      match t with
+      | .unknown | .never =>
+        -- nothing is known about the receiver: only the arguments themselves are checked
+        let (_, d') ← synthList env ctx g args
+        pure (.unknown, d || d')
+      | _ => fail "no-method"
   | .assign isConst x path e => do
     if isConst then fail "assign-non-local" else
     match lookupVar g x with
@@ -687,6 +728,7 @@ def refsE : Expr → List Item
   | .for _ e b => refsE e ++ refsB b
   | .block b => refsB b
   | .call f args => .fn f :: refsL args
+  | .mcall e _ args => refsE e ++ refsL args
   | .assign isC x _ e => (if isC then [.const x] else []) ++ refsE e
   | .cassign _ isC x _ e => (if isC then [.const x] else []) ++ refsE e
   | .ret _ e => (match e with | some e => refsE e | none => [])
